@@ -530,8 +530,6 @@ Proof.
   all: repeat split; auto; try congruence; try (per_client Hcl); try (intros; congruence).
   - destruct ne; cbn in Hw; try discriminate; auto.
   - destruct ne; cbn in Hw; try discriminate; auto.
-  - destruct Hfl as (_ & Hx). destruct (Hx eq_refl) as (_ & Hy). congruence.
-  - destruct Hfl as (Hx & _). cbn in Hx. discriminate.
   - destruct r; try contradiction; destruct (ph s c0); cbn in *; auto.
   - rewrite E2. exact Hfl.
   - rewrite E2. exact Hfl.
